@@ -32,7 +32,7 @@ func (c12) Runs(tier string) int {
 }
 func (c12) New() interface{} { return &c12Case{} }
 func (c12) Rule() string {
-	return "seeded BGZF writer scripts (as C01, with Flush/Wait at drawn points), all wc, underlying writes delayed 0..3 rounds; the image is examined after EVERY underlying Write returns and after EVERY API call returns (all crash points of the run are enumerated, counted in crash_points); 1 in 5 runs adds one transient/persistent failing underlying write. non-trivial: >=2 compressor goroutines alive at once AND their completions were out of submission order (scheduler trace); distinct = (case, schedule signature)"
+	return "seeded BGZF writer scripts (as C01, with Flush/Wait at drawn points), all wc, underlying writes delayed 0..3 rounds; the image is examined after EVERY underlying Write returns and after EVERY API call returns (all crash points of the run are enumerated, counted in crash_points); 1 in 5 runs adds one transient/persistent failing underlying write; 1 in 5 runs drives bam.Writer instead (header durable when NewWriter returns - a fifth of those with the header padded to k x BlockSize -1/0/+1 -, record-stream prefix at every crash point). non-trivial: >=2 compressor goroutines alive at once AND their completions were out of submission order (scheduler trace); distinct = (case, schedule signature)"
 }
 
 func (c12) Gen(t *Tape, tier string, run int) interface{} {
@@ -71,6 +71,22 @@ func (c12) Gen(t *Tape, tier string, run int) interface{} {
 				size = 1
 			}
 			c.Recs = append(c.Recs, genRec(t, len(c.Hdr.Refs), size, i))
+		}
+		if t.Chance("work", 1, 5) {
+			// a header padded (by a comment) to end exactly on, or next to,
+			// a block boundary of the writer: whether NewWriter has
+			// delivered ALL of it is then decided by its Wait alone
+			k := 1 + t.Draw("work", 2)
+			target := k*bs + t.Pick("work", 0, 0, 0, -1, 1)
+			base := len(c.Hdr.EncodeBAMHeader()) + len("@CO\t\n")
+			if n := target - base; n > 0 {
+				pt := NewTape(uint64(n), "C12-pad", 0)
+				pad := make([]byte, n)
+				for i := range pad {
+					pad[i] = byte('a' + pt.Draw("work", 26))
+				}
+				c.Hdr.Comments = append(c.Hdr.Comments, string(pad))
+			}
 		}
 	}
 	return c
